@@ -515,17 +515,21 @@ func describeEvent(events []crashfs.Event, n int) string {
 
 var knownReadErrors int
 
-// withCompaction is the reorganisation switch of the concurrent driver (view.go).
+// withCompaction is the reorganisation switch of the concurrent driver (view.go): reorganisations on, one entry
+// point, wait, reorganisations off - through the store's enable flags (shard.DisableCompAndMerge would close the
+// compaction scheduler for good, finding F-C03-2).
 func withCompaction(e *engx.Env, f func(st *immutable.MmsTables) error) error {
 	sh := e.Shard()
-	sh.EnableCompAndMerge()
 	st, ok := sh.GetTableStore().(*immutable.MmsTables)
 	if !ok {
 		return fmt.Errorf("table store is not *MmsTables")
 	}
+	st.CompactionEnable()
+	st.MergeEnable()
 	err := f(st)
 	st.Wait()
-	sh.DisableCompAndMerge()
+	st.CompactionDisable()
+	st.MergeDisable()
 	return err
 }
 
@@ -870,7 +874,7 @@ func runLayoutCase(lc *layoutCase, root string) (res caseResult) {
 			return err
 		}
 		restart := func(label string, level int) (*reorgEnv, bool) {
-			e2, err := openReorgEnv(dir, opts, level)
+			e2, err := openReorgEnvRead(dir, opts, level)
 			if err != nil {
 				if strings.Contains(err.Error(), "cannot open index") {
 					res.IndexInconclusive++
